@@ -67,8 +67,10 @@ M = [
     ('include_cwd_first', A, "    current_dirs = copy.deepcopy(include_dirs or [])\n    current_dirs.append(base_path)", "    current_dirs = copy.deepcopy(include_dirs or [])\n    current_dirs.insert(0, os.getcwd())\n    current_dirs.append(base_path)", ['C14'], 'cwd searched first'),
     ('include_dirs_appended', A, "    current_dirs = copy.deepcopy(include_dirs or [])\n    current_dirs.append(base_path)", "    current_dirs = include_dirs if include_dirs is not None else []\n    current_dirs.append(base_path)", ['C14', 'C16'], 'caller list mutated; included files\' dirs leak'),
     ('cli_open_before_assemble', A, "    constants = {}\n    labels = {}\n    try:\n        input_asm = os.path.abspath(args.input_asm)", "    out_bin = open(args.output, 'wb')\n    out_bin.close()\n    constants = {}\n    labels = {}\n    try:\n        input_asm = os.path.abspath(args.input_asm)", ['C17'], 'output truncated before assembling'),
-    ('cli_hex_offset_lost_big', A, "        bin2hex(args.output, args.output + '.hex', hex_offset)", "        bin2hex(args.output, args.output + '.hex', hex_offset if len(binary) <= 65536 else hex_offset & 0xffff)", ['C17'], ''),
-    ('cli_labels_decimal', A, "        lines = ['{} 0x{:08x}\\n'.format(k, v) for k, v in labels.items()]", "        lines = ['{} 0x{:08x}\\n'.format(k, v if v < 4096 else v & ~1) for k, v in labels.items()]", [], 'no-op for even labels: control'),
+    ('cli_hex_offset_lost_big', A, "            if bin2hex(args.output + '.part', args.output + '.hex.part', hex_offset) != 0:", "            if bin2hex(args.output + '.part', args.output + '.hex.part', hex_offset if len(binary) <= 65536 else hex_offset & 0xffff) != 0:", ['C17'], ''),
+    ('cli_parts_left_behind', A, "        for part, path in staged:\n            if os.path.isfile(part):\n                os.remove(part)\n        raise", "        raise", [], 'stale .part files after a failure: not an output the property names - control'),
+    ('cli_replace_before_all_staged', A, "        staged.append((args.output + '.part', args.output))\n        with open(args.output + '.part', 'wb') as out_bin:\n            out_bin.write(binary)\n", "        with open(args.output, 'wb') as out_bin:\n            out_bin.write(binary)\n        staged.append((args.output, args.output))\n", ['C17'], 'binary written in place before the hex file is known to be writable'),
+    ('cli_labels_decimal', A, "            lines = ['{} 0x{:08x}\\n'.format(k, v) for k, v in labels.items()]", "            lines = ['{} 0x{:08x}\\n'.format(k, v if v < 4096 else v & ~1) for k, v in labels.items()]", [], 'no-op for even labels: control'),
     ('error_line_off_by_include', A, "        line = Line(path, i, raw_line)", "        line = Line(path, i if not include else i + 1, raw_line)", ['C15'], 'line numbers of included files off by one'),
     ('error_loses_line_in_li', A, "            value = imm.eval(position, env, item.line)\n            value = c_int32(value).value  # signed imm\n            if value >= (-2**11) and value <= (2**11 - 1):", "            value = imm.eval(position, env, Line(item.line.file, 1, item.line.contents))\n            value = c_int32(value).value  # signed imm\n            if value >= (-2**11) and value <= (2**11 - 1):", ['C15'], 'undefined li operand reported at line 1'),
     ('comment_strip_after_paren', A, "    contents = re.sub(r'#.*$', r'', contents)\n\n    # pad parens before split\n    contents = contents.replace('(', ' ( ').replace(')', ' ) ')", "    # pad parens before split\n    contents = contents.replace('(', ' ( ').replace(')', ' ) ')\n    contents = re.sub(r' #.*$', r'', contents)", ['C13'], 'comment glued to a token survives'),
